@@ -7,6 +7,7 @@ A, B = ('wild', 'a'), ('wild', 'b')
 
 def run(chk):
     thorough = chk.tier == 'thorough'
+    chk.bounds['families added after seeded changes'] = 'every pair of the four until operators on the same operands inside one formula'
     configs = [(2, 0), (2, 1)] + ([(3, 0), (3, 1)] if thorough else [(3, 0)])
     chk.bounds.update({'E-MIR': 'n (network variables), c (explicit colour bits, symbolic valid-colour mask): ' + str(configs) + '; all transition systems, all argument sets inside the unit set',
                        'loop_unwinding': 'gfp/lfp loops 2^n+2, saturation 2^(n+c)+2, each with an unwinding assertion'})
